@@ -125,15 +125,23 @@ ModelPtr genModel(Rng &rng, const GenOpts &o)
     IdSource ids {rng, o.idMode};
     auto model = Model::create("model");
     model->setId(ids.next());
+    std::vector<ImportSourcePtr> sharedSources;
     // units
     long nUnits = rng.range(0, 3);
     for (long u = 0; u < nUnits; ++u) {
         auto units = Units::create("units" + str(u));
         units->setId(ids.next());
         if (o.imports && rng.chance(1, 4)) {
-            auto is = ImportSource::create();
-            is->setUrl("imp" + str(u) + ".cellml");
-            is->setId(ids.next());
+            // one <import> element may carry several children: an import source is sometimes shared
+            ImportSourcePtr is;
+            if (!sharedSources.empty() && rng.chance(1, 3)) {
+                is = sharedSources[rng.below(sharedSources.size())];
+            } else {
+                is = ImportSource::create();
+                is->setUrl("imp" + str(u) + ".cellml");
+                is->setId(ids.next());
+                sharedSources.push_back(is);
+            }
             units->setSourceUnits(is, "ref_units");
         } else {
             long nc = rng.range(0, 3);
@@ -152,9 +160,15 @@ ModelPtr genModel(Rng &rng, const GenOpts &o)
         auto comp = Component::create("comp" + str(c));
         comp->setId(ids.next());
         if (o.imports && rng.chance(1, 6)) {
-            auto is = ImportSource::create();
-            is->setUrl("impc" + str(c) + ".cellml");
-            is->setId(ids.next());
+            ImportSourcePtr is;
+            if (!sharedSources.empty() && rng.chance(1, 3)) {
+                is = sharedSources[rng.below(sharedSources.size())];
+            } else {
+                is = ImportSource::create();
+                is->setUrl("impc" + str(c) + ".cellml");
+                is->setId(ids.next());
+                sharedSources.push_back(is);
+            }
             comp->setSourceComponent(is, "ref_component");
         }
         long nv = rng.range(0, std::max<long>(0, o.maxVars));
